@@ -88,7 +88,7 @@ def gen_abstract(rng, nstmt=None, dup_outputs=False, includes=False, scoping=Fal
             binds = []
             if rng.random() < 0.4:
                 for _ in range(rng.randint(1, 2)):
-                    k = rng.choice(varnames + ["command", "description", "pool", "depfile"])
+                    k = rng.choice(varnames + ["command", "description", "pool", "depfile"] + (["in", "out", "in_newline"] if scoping else []))
                     binds.append((k, rand_value(rng, varnames + (["in", "out"] if scoping else []))))
             stmts.append(("build", eo, io_, rng.choice(rules + ["phony"] if rng.random() < 0.2 else rules),
                           paths(2), paths(1) if rng.random() < 0.4 else [], paths(1) if rng.random() < 0.3 else [],
